@@ -56,6 +56,7 @@ func C13(ctx *core.Ctx) {
 	ctx.Rule("C13.R3", "the timeout edge returns a transport exception of kind TIMED_OUT", 4)
 	c13HTTPErrorIdentity(ctx, r)
 	c13PositiveTimeout(ctx, r)
+	c13OneBudget(ctx, r)
 	ctx.Rule("C13.R7", "a reply cannot overtake its registration: Register dominates the transmission (otherwise a fast reply is dropped and the call reports TIMED_OUT although the peer answered)", 2)
 	ctx.Rule("C13.R4", "no registration is left behind (deferred Unregister of the same context on every path after Register)", 3)
 	ctx.Assume("http.Client.Do returns, and reads of the response body fail, once the request context is done")
